@@ -49,6 +49,9 @@ def catalogue(rng):
         ("switch_on_next(just,interval)", ["op", "switch_on_next", [], ["just", 1], iv], d, None),
         ("switch_on_next(empty,timer)", ["op", "switch_on_next", [], ["empty"], ["timer", d]], d, None),
         ("concat(error,interval)", ["op", "concat", [], ["error", 5], iv], d, None),
+        ("amb(just,observe_on(interval))", ["op", "amb", [], ["just", 7], ["op", "observe_on", [], iv]], d, None),
+        ("take_until(observe_on(subscribe_on(interval)),just)", ["op", "take_until", [], ["op", "observe_on", [], ["op", "subscribe_on", [], iv]], ["just", 1]], d, None),
+        ("take(merge(just,observe_on(interval)))", ["op", "take", [1], ["op", "merge", [], ["just", 7], ["op", "observe_on", [], iv]]], d, None),
         # an operator that has all it needs while BOTH its thread-backed inputs are still running: the first pair already differs
         ("sequence_equal(interval,interval+1)", ["op", "sequence_equal", [], iv, ["op", "map", [["add", 1]], ["interval", d + 1]]], d + 1, None),
         ("contains(interval)", ["op", "contains", [1], iv], d, None),
@@ -102,6 +105,13 @@ def special_cases(rng, seed, thorough):
         scn = ["conc", ["objects", ["subject", "subject"], ["pipe", pipe]], ["init", ["sub", 0, 0]], ["threads"] + threads, ["fini"],
                ["sched", "random", seed * 1000 + rng.randrange(1000), runs]]
         out.append({"scn": scn, "name": "flat_map(timer,interval,interval) churn+unsub", "period": d + 2, "users": 1})
+    # a ticker shared through replay(): the first subscriber connects it, a LATE subscriber whose demand (take 1 / first) is met
+    # from the replayed history alone comes and goes, then the first subscriber leaves: nobody is left, the ticker must stop
+    for late in (["op", "take", [1], ["conn", 0]], ["op", "first", [], ["conn", 0]], ["op", "take_while", [["lt", 0]], ["conn", 0]]):
+        threads = [["s", ["sleep", 2 * d + 2], ["sub", 1, late], ["sleep", d], ["unsub", 0]]]
+        scn = ["conc", ["objects", ["conn", "replay", ["interval", d]], ["pipe", ["conn", 0]]], ["init", ["sub", 0, 0]], ["threads"] + threads, ["fini"],
+               ["sched", "random", seed * 1000 + rng.randrange(1000), runs]]
+        out.append({"scn": scn, "name": "replay(interval): late %s from the history, then the first subscriber leaves" % late[1], "period": d, "users": 2})
     return out
 
 
